@@ -112,7 +112,7 @@ def with_reference(name, front_end, validate):
     return ir
 
 
-ALL = ("tables", "gates", "pauli", "wmiconfig", "vqe", "qasm")   # every translator module in harness/translators/ that setup.sh should run
+ALL = ("tables", "gates", "pauli", "wmiconfig", "vqe", "qasm", "wmiopts")   # every translator module in harness/translators/ that setup.sh should run
 
 
 def regenerate(which=ALL):
